@@ -74,6 +74,53 @@ def run_pair(cls, pre, post, dsteps, maxsteps, dt, lr_post, lr_pre, tc_post, tc_
     return None
 
 
+def triplet_expected(pre, post, dsteps, dt, a_post, b_post, a_pre, b_pre, tc_pf, tc_ps, tc_qf, tc_qs):
+    """documented triplet rule (cumulative traces): each pair term is multiplied by 1 + |b/a| * (slow trace of the
+    triggering population one step earlier); presynaptic spike times are shifted by the synaptic delay."""
+    T, B, I = pre.shape
+    O = post.shape[2]
+    dw = torch.zeros(O, I, dtype=torch.float64)
+    for b, o, i in itertools.product(range(B), range(O), range(I)):
+        k = int(dsteps[o, i])
+        tpost = [t for t in range(T) if post[t, b, o]]
+        tpre = [t + k for t in range(T) if pre[t, b, i] and t + k < T]
+        tot = 0.0
+        for t in tpost:
+            pair = sum(math.exp(-(t - s) * dt / tc_pf) for s in tpre if s <= t)
+            slow = sum(math.exp(-(t - 1 - u) * dt / tc_qs) for u in tpost if u <= t - 1)
+            tot += a_post * pair * (1 + abs(b_post / a_post) * slow)
+        for t in tpre:
+            pair = sum(math.exp(-(t - u) * dt / tc_qf) for u in tpost if u <= t)
+            slow = sum(math.exp(-(t - 1 - s2) * dt / tc_ps) for s2 in tpre if s2 <= t - 1)
+            tot += a_pre * pair * (1 + abs(b_pre / a_pre) * slow)
+        dw[o, i] += tot
+    return dw
+
+
+def run_triplet(pre, post, dsteps, maxsteps, dt, a_post, b_post, a_pre, b_pre, delayed=True):
+    T, B, I = pre.shape
+    O = post.shape[2]
+    conn, neuron, layer = build(I, O, B, dt, dsteps, maxsteps)
+    tcs = dict(tc_post_fast=10.0, tc_post_slow=40.0, tc_pre_fast=8.0, tc_pre_slow=30.0)
+    tr = TripletSTDP(lr_post_pair=a_post, lr_post_triplet=b_post, lr_pre_pair=a_pre, lr_pre_triplet=b_pre, delayed=delayed, interp_tolerance=1e-4, trace_mode="cumulative", batch_reduction=torch.sum, **tcs)
+    tr.register_cell("cell", layer.cell)
+    w0 = conn.weight.clone().double()
+    inp = dict(trainer="TripletSTDP", pre=pre.int().tolist(), post=post.int().tolist(), delays=dsteps.tolist(), dt=dt, rates=[a_post, b_post, a_pre, b_pre], delayed=delayed)
+    try:
+        with torch.no_grad():
+            for t in range(T):
+                layer(pre[t].float(), neuron_kwargs={"override": post[t]})
+                tr()
+            conn.update()
+    except Exception as e:
+        return {"what": "C08/TripletSTDP/exception", "input": inp, "expected": "update", "actual": f"{type(e).__name__}: {e}"}
+    actual = conn.weight.double() - w0
+    exp = triplet_expected(pre, post, dsteps, dt, a_post, b_post, a_pre, b_pre, tcs["tc_pre_fast"], tcs["tc_pre_slow"], tcs["tc_post_fast"], tcs["tc_post_slow"])
+    if not torch.allclose(actual, exp, atol=5e-4, rtol=1e-4):
+        return {"what": "C08/TripletSTDP/triplet_sum", "input": inp, "expected": exp.tolist(), "actual": actual.tolist()}
+    return None
+
+
 def run_mstdp(pre, post, signal, scale, dt, lr_post, lr_pre, tc_post, tc_pre, per_sample):
     T, B, I = pre.shape
     O = post.shape[2]
@@ -225,7 +272,9 @@ def sweep_c08(tier, seed):
             for delayed in (True, False):
                 cases += 1
                 add(run_pair(cls, pre, post, ds, 3, rnd.choice([1.0, 0.5]), rnd.choice([0.5, -0.5]), rnd.choice([0.3, -0.3]), 12.0, 9.0, rnd.choice(["cumulative", "nearest"]), delayed=delayed))
-        cases += 2
+        cases += 4
+        add(run_triplet(pre, post, ds, 3, 1.0, 0.6, 0.4, -0.5, 0.3, delayed=True))
+        add(run_triplet(pre, post, torch.zeros(2, 3, dtype=torch.long), 0, 1.0, -0.6, 0.4, 0.5, 0.3, delayed=False))
         add(run_mstdp(pre, post, [0.7, -1.2, 0.0, 2.0], 0.5, 1.0, 0.4, -0.3, 10.0, 8.0, per_sample=False))
         add(run_mstdp(pre, post, [0.7, -1.2, 0.0, 2.0], 0.5, 1.0, 0.4, -0.3, 10.0, 8.0, per_sample=True))
     return failures, cases
